@@ -25,7 +25,7 @@ type CGCall struct {
 }
 
 var (
-	cgNameRx  = regexp.MustCompile(`^(ob|fl|fn|cfl|cfn)=(?:\((\d+)\)(?: (.*))?)?$`)
+	cgNameRx  = regexp.MustCompile(`^(ob|fl|fn|cfl|cfn|cob)=(?:\((\d+)\)(?: (.*))?)?$`)
 	cgCostRx  = regexp.MustCompile(`^(0x[0-9a-f]+|[+-]\d+|\*) (-?\d+|\*) (-?\d+)$`)
 	cgCallsRx = regexp.MustCompile(`^calls=(\d+) (0x[0-9a-f]+|[+-]\d+|\*) (-?\d+)$`)
 	cgSuffix  = regexp.MustCompile(` \[\d+/\d+\]$`)
